@@ -154,7 +154,7 @@ def _gen_ops(rng, n_ops, n_prim, world_has_nac, fault_mode, tier):
             op.update(fscale=rng.choice([1.0, 1.3, 0.8]), energies=rng.random() < 0.4)
             st["forces"] = True
         elif kind == "set_dataset":
-            op.update(kind=rng.choice([1, 2, 2, None]), with_forces=rng.random() < 0.6, fscale=rng.choice([1.0, 1.3]))
+            op.update(kind=rng.choice([1, 2, 2, None]), with_forces=rng.random() < 0.6, fscale=rng.choice([1.0, 1.3]), with_energies=rng.random() < 0.35)
             if planned.get(i) == "lesser":
                 # replace a dataset by one that carries LESS (same type, no forces / no energies): left-overs of the old one
                 # must not survive
@@ -314,6 +314,17 @@ class Target:
             f.force_constants = self.fc.copy()
         if self.dataset is not None:
             f.dataset = copy.deepcopy(self.dataset)
+        return f
+
+    def blank(self):
+        """A new object with the cell and masses only (no dataset, force constants or NAC): what the harness builds datasets with,
+        so that the model of the long-lived object's dataset never passes through that object's own setters' history."""
+        from phonopy import Phonopy
+
+        ph = self.ph
+        f = Phonopy(ph.unitcell, supercell_matrix=ph.supercell_matrix, primitive_matrix=ph.primitive_matrix,
+                    is_symmetry=self.init["is_symmetry"], store_dense_svecs=self.init["store_dense_svecs"], log_level=0)
+        f.masses = self.masses.copy()
         return f
 
 
@@ -548,29 +559,55 @@ def execute(spec):
                     exp_s = m[[p2p[x] for x in ph.primitive.s2p_map]]
                     if not np.array_equal(s_m, exp_s) or not np.array_equal(ph.unitcell.masses, exp_s[ph.supercell.u2s_map]):
                         V("set-get-mismatch", "masses.propagation")
-                elif kind == "gen_disp":
-                    ph.generate_displacements(distance=op["distance"], is_plusminus=op["is_plusminus"], is_diagonal=op["is_diagonal"])
-                    t.dataset = copy.deepcopy(ph.dataset)
-                elif kind == "gen_disp_random":
-                    ph.generate_displacements(distance=op["distance"], number_of_snapshots=op["n"], random_seed=op["seed"])
-                    t.dataset = copy.deepcopy(ph.dataset)
+                elif kind in ("gen_disp", "gen_disp_random"):
+                    # the model is what a blank object generates with the same arguments: whatever the long-lived object held
+                    # before (forces, energies, another dataset type) must not survive into the new dataset
+                    if kind == "gen_disp":
+                        gkw = dict(distance=op["distance"], is_plusminus=op["is_plusminus"], is_diagonal=op["is_diagonal"])
+                    else:
+                        gkw = dict(distance=op["distance"], number_of_snapshots=op["n"], random_seed=op["seed"])
+                    bl = t.blank()
+                    bl.generate_displacements(**gkw)
+                    expect = snapshot(bl.dataset)
+                    t.dataset = None  # if the call below raises, the handler re-syncs from the object
+                    ph.generate_displacements(**gkw)
+                    t.dataset = expect
+                    if not same(snapshot(ph.dataset), expect):
+                        V("set-get-mismatch", "generate_displacements.dataset", reported_keys=sorted(ph.dataset) if isinstance(ph.dataset, dict) else None,
+                          expected_keys=sorted(expect))
+                        t.dataset = snapshot(ph.dataset)  # reported once; the rest of the history continues from the reported state
                 elif kind == "set_forces":
                     fs = model_forces(w, ph, fc_model_full * op["fscale"])
                     arrs = [np.array(f) for f in fs]
+                    # model built by hand from the previous model (not read back from the object)
+                    expect = copy.deepcopy(t.dataset) if t.dataset is not None else None
+                    ens = [-(i + 1.5) for i in range(len(arrs))]
+                    if expect is not None and "first_atoms" in expect:
+                        for i, d_ in enumerate(expect["first_atoms"]):
+                            d_["forces"] = np.array(arrs[i], dtype="double", order="C")
+                            if op["energies"]:
+                                d_["supercell_energy"] = float(ens[i])
+                    elif expect is not None:
+                        expect["forces"] = np.array(arrs, dtype="double", order="C")
+                        if op["energies"]:
+                            expect["supercell_energies"] = np.array(ens, dtype="double")
                     ph.forces = arrs if "first_atoms" in ph.dataset else np.array(arrs)
                     for i, a_ in enumerate(arrs[:2]):
                         t.handed_in.append(["forces=[%d]" % i, a_, a_.copy()])
                     if op["energies"]:
-                        ph.supercell_energies = [-(i + 1.5) for i in range(len(arrs))]
-                    t.dataset = copy.deepcopy(ph.dataset)
+                        ph.supercell_energies = ens
                     rep = np.array(ph.forces)
                     if not np.array_equal(rep, np.array(fs)):
                         V("set-get-mismatch", "forces")
+                    if expect is not None and not same(snapshot(ph.dataset), expect):
+                        V("set-get-mismatch", "forces=.dataset", reported_keys=sorted(ph.dataset), expected_keys=sorted(expect))
+                        expect = snapshot(ph.dataset)
+                    t.dataset = expect if expect is not None else snapshot(ph.dataset)
                 elif kind == "set_dataset":
                     if op["kind"] is None:
                         val = None
                     else:
-                        tmp = t.fresh()
+                        tmp = t.blank()
                         if op["kind"] == 1:
                             tmp.generate_displacements(distance=0.02)
                         else:
@@ -578,6 +615,8 @@ def execute(spec):
                         if op["with_forces"]:
                             fs = model_forces(w, tmp, fc_model_full * op["fscale"])
                             tmp.forces = fs if op["kind"] == 1 else np.array(fs)
+                            if op.get("with_energies"):
+                                tmp.supercell_energies = [-(i + 2.25) for i in range(len(fs))]
                         val = copy.deepcopy(tmp.dataset)
                     priv = copy.deepcopy(val)
                     ph.dataset = val
